@@ -56,8 +56,28 @@ def facts(res, harness):
     return {"facts_regenerated_changed": r["facts_regenerated_changed"]}
 
 
-def gen(tier, rng, harness=None):
+TNAMES = [b"0", b"1", b"2", b"10", b"7", b".a", b"$s", b"-m", b"1a", b"2 b", b"!x", b"z9", b"z10", b"a", b"a2", b"a10", b"a02", b"T", b"struct.x", b"_", b"#h", b"9z", b"00x"]
+CNAMES = [n for n in TNAMES if not n.isdigit()] + [b"c1", b"c01", b"c10"]
+NNAMES = [b"llvm.x", b"a", b"a2", b"a10", b"a02", b"-m", b"$s", b".a", b"z9", b"z10", b"_1", b"m.1.2", b"m.1.10"]
+
+
+def deforder_lines(rng, n):
+    """the definitions of a module written in a random order (numbered type definitions among names that sort below the digits, between them and above them;
+    comdats; named metadata; attribute group and metadata IDs): the printed module lists them in the order the model computes (theorem printed_order_canonical)"""
     lines = []
+    for _ in range(n):
+        ts = rng.sample(TNAMES, rng.randint(0, 9))
+        cs = rng.sample(CNAMES, rng.randint(0, 6))
+        ns = rng.sample(NNAMES, rng.randint(0, 6))
+        ids = rng.sample([0, 1, 2, 3, 5, 9, 10, 11, 20, 100, 4294967296], rng.randint(0, 6))
+        ms = rng.sample([0, 1, 2, 3, 5, 9, 10, 11, 20, 100, 4294967296], rng.randint(0, 6))
+        g = lambda k, xs: k + ":" + (",".join(xs) or "-")
+        lines.append("mod.deforder %s %s %s %s %s" % (g("T", [hx(x) for x in ts]), g("C", [hx(x) for x in cs]), g("N", [hx(x) for x in ns]), g("A", [str(i) for i in ids]), g("M", [str(i) for i in ms])))
+    return lines
+
+
+def gen(tier, rng, harness=None):
+    lines = deforder_lines(rng, 300 if tier == "quick" else 20000)
     n = 1500 if tier == "quick" else 120000
     if tier == "thorough":
         univ = [b""] + [b"".join(t) for k in (1, 2, 3) for t in itertools.product(ALPHA, repeat=k)]
@@ -97,6 +117,13 @@ def nontrivial(ln, model_out):
 
 
 def search(ln, a, b, harness, driver):
+    if ln.startswith("mod.deforder"):
+        # the printed order differs from the sorted order the property states: the operation (a module text) is the failing input
+        return {"ops": [ln], "impl": [a], "model": [b]}
+    return search_less(ln, a, b, harness, driver)
+
+
+def search_less(ln, a, b, harness, driver):
     """a Less disagreement: look for a violated order law among the arguments and their neighbours"""
     from . import common as C
     import random
